@@ -772,12 +772,18 @@ func (r *run) verify() {
 		if closed != 0 && o.resp > closed {
 			// a read that overlaps or follows the close and did not fail: results are still checked
 			rec.Class("read:succeeded-around-close")
-			if cd := r.closeDone.Load(); o.ql && len(o.got) == 0 && (cd == 0 || o.inv < cd) && ev.KnownOpen("C39", emptyAtCloseKey) {
+			if cd := r.closeDone.Load(); o.ql && (cd == 0 || o.inv < cd) && o.series != deleterSeries && ev.KnownOpen("C39", emptyAtCloseKey) {
 				// open known finding, exact signature: an InfluxQL iterator created while Store.Close is
-				// running reports success and no points
-				rec.ExcludedKnown(emptyAtCloseKey)
-				rec.Class("read:influxql-empty-while-closing(known)")
-				continue
+				// running reports success although points are missing from it (all of them when the
+				// index was closed first, some of them when TSM files were): only missing points are
+				// tolerated, a wrong or deleted value is not
+				var wi int
+				fmt.Sscanf(o.series, "m0,host=w%d", &wi)
+				if msg, ok := r.checkOverwriterRead(o, wi); !ok && strings.HasSuffix(strings.SplitN(msg, "\n", 2)[0], "missing") {
+					rec.ExcludedKnown(emptyAtCloseKey)
+					rec.Class("read:influxql-incomplete-while-closing(known)")
+					continue
+				}
 			}
 		}
 		if o.series == deleterSeries {
